@@ -267,13 +267,15 @@ def run(repo: Repo, chk: Check, thorough: bool = False) -> None:
            'an overload does not keep its own signature (or overwrites the primary one)', hf.loc)
     # the test that raises the overload flag: the innermost comparison dominating `<flag> = True`
     oflags = (flags_o & flags_s) if ok else set()
-    sets_flag = [n for n in hf.walk() if isinstance(n, ast.Assign) and isinstance(n.value, ast.Constant) and n.value.value is True and
-                 any(isinstance(t, ast.Name) and t.id in oflags for t in n.targets)]
+    from ..util import tuple_helpers
     ovt = []
-    for a in sets_flag:
-        for t, pol in cfg.dominating_tests(a):
-            if pol and isinstance(t, ast.Compare) and any(isinstance(c, ast.Call) and call_name(c) == 'expandName' for c in ast.walk(t.left)):
-                ovt.append(t)
+    for fn_, ren_ in [(hf, {})] + tuple_helpers(repo, hf):
+        cfg_ = cfg if fn_ is hf else CFG(fn_)
+        for a in [n for n in fn_.walk() if isinstance(n, ast.Assign) and isinstance(n.value, ast.Constant) and n.value.value is True and
+                  any(isinstance(t, ast.Name) and ren_.get(t.id, t.id) in oflags for t in n.targets)]:
+            for t, pol in cfg_.dominating_tests(a):
+                if pol and isinstance(t, ast.Compare) and any(isinstance(c, ast.Call) and call_name(c) == 'expandName' for c in ast.walk(t.left)):
+                    ovt.append(t)
     if not ovt:
         chk.error('R14.4: the test recognising @overload was not found')
     for t in ovt:
